@@ -76,6 +76,8 @@ Judge(s, e) ==
   ELSE IF o.exc # None THEN "exception"
   ELSE IF e.op = "lle" THEN
        IF o.neg THEN "lle.negative_flow"
+       \* (judged first: a wrong label is a more specific verdict than "differs from the twin", which it also causes)
+       ELSE IF ~o.top_ok THEN "lle.top_chemical_in_wrong_phase"
        \* a call identical to the remembered one MAY reuse: then the reusing stream returns the remembered split and any difference to the
        \* twin is the twin's fresh solve not repeating itself (judged to the solver's resolution o.scale_tol); after any change of
        \* temperature, composition or chemicals nothing may be reused and both streams solve alike
@@ -84,7 +86,6 @@ Judge(s, e) ==
        \* the Gibbs-minimising methods stop at f_tol = 1e-6 on the Gibbs energy: two runs that differ in the last bits of the
        \* normalised feed agree only to the solver's resolution (o.scale_tol, given per method by the driver)
        ELSE IF o.scale > o.scale_tol THEN "lle.not_proportional_to_feed"
-       ELSE IF ~o.top_ok THEN "lle.top_chemical_in_wrong_phase"
        ELSE IF o.two /\ o.act > ActTol THEN "lle.activities_differ"
        \* o.fresh: difference to a NEW stream given the same material and temperature (quanta): whatever the solver remembers from
        \* earlier calls, the call returns the equilibrium of THIS temperature and composition
